@@ -20,6 +20,7 @@ mod c16;
 mod c17;
 mod c18;
 mod c19;
+mod c20;
 mod fault;
 mod plonkrun;
 mod rec;
@@ -93,6 +94,7 @@ fn main() {
         "c17" => c17::main(rest),
         "c18" => c18::main(rest),
         "c19" => c19::main(rest),
+        "c20" => c20::main(rest),
         "randshape" => {
             let seed: u64 = rest[0].parse().unwrap();
             println!("{}", serde_json::to_string(&shapes::random_shape(seed)).unwrap());
